@@ -105,7 +105,105 @@ fn emit_rt(out: &mut Vec<String>, t: &DTy, v: &DVal) {
     out.push(format!("rt {} {}", t, v));
 }
 
+/// sizes around every power-of-two boundary a counter, staging buffer or block size could sit at
+pub fn ladder(thorough: bool) -> Vec<usize> {
+    let mut v = vec![0usize, 1, 2, 3, 7, 8, 9, 15, 16, 17, 31, 32, 33, 63, 64, 65, 127, 128, 129, 253, 254, 255, 256, 257, 258, 300, 511, 512, 513, 1023, 1024, 1025];
+    if thorough {
+        v.extend([2047, 2048, 2049, 4095, 4096, 4097]);
+    }
+    v
+}
+
+fn wrap_ty(kind: usize, t: DTy) -> DTy {
+    match kind {
+        0 => DTy::Option(Box::new(t)),
+        1 => DTy::NStruct(Box::new(t)),
+        2 => DTy::Seq(Box::new(t)),
+        3 => DTy::Tuple(vec![t]),
+        4 => DTy::TStruct(vec![t]),
+        5 => DTy::Struct(vec![t]),
+        6 => DTy::Enum(vec![DTy::Unit, DTy::NStruct(Box::new(t))]),
+        _ => DTy::Map(Box::new(DTy::Unit), Box::new(t)),
+    }
+}
+fn wrap_val(kind: usize, v: DVal) -> DVal {
+    match kind {
+        0 => DVal::Some(Box::new(v)),
+        1 => DVal::NStruct(Box::new(v)),
+        2 => DVal::Seq(vec![v]),
+        3 => DVal::Tuple(vec![v]),
+        4 => DVal::TStruct(vec![v]),
+        5 => DVal::Struct(vec![v]),
+        6 => DVal::NVar(1, Box::new(v)),
+        _ => DVal::Map(vec![DVal::Unit, v]),
+    }
+}
+
+/// values at SCALE: nesting depth and element / field / variant counts on the ladder. Nothing in the
+/// format depends on these sizes, so nothing in the implementation may either.
+pub fn scale_cases(r: &mut Rng, thorough: bool) -> Vec<(DTy, DVal)> {
+    let mut out = Vec::new();
+    let lad = ladder(thorough);
+    // nesting depth: one wrapper kind repeated, and all kinds alternating
+    for &d in lad.iter().filter(|d| **d >= 15) {
+        for kind in 0..9usize {
+            if !thorough && d > 300 && kind % 3 != d % 3 {
+                continue;
+            }
+            let (mut t, mut v) = (DTy::U(8), DVal::U(8, 7));
+            for level in 0..d {
+                let k = if kind == 8 { level % 8 } else { kind };
+                t = wrap_ty(k, t);
+                v = wrap_val(k, v);
+            }
+            out.push((t, v));
+        }
+        // a None at the bottom of d Options, a unit variant at the bottom of d newtype variants
+        let (mut t, mut v) = (DTy::Option(Box::new(DTy::U(8))), DVal::None);
+        for _ in 0..d {
+            t = wrap_ty(0, t);
+            v = wrap_val(0, v);
+        }
+        out.push((t, v));
+    }
+    // element counts
+    for &n in lad.iter().filter(|n| **n >= 31) {
+        let half_none: Vec<DVal> = (0..n).map(|i| if i % 2 == 0 { DVal::None } else { DVal::Some(Box::new(DVal::U(8, i as u128 % 251))) }).collect();
+        out.push((DTy::Seq(Box::new(DTy::Option(Box::new(DTy::U(8))))), DVal::Seq(half_none)));
+        out.push((DTy::Seq(Box::new(DTy::Option(Box::new(DTy::U(8))))), DVal::Seq(vec![DVal::None; n])));
+        out.push((DTy::Seq(Box::new(DTy::U(16))), DVal::Seq((0..n).map(|i| DVal::U(16, (i * 37) as u128 % 65536)).collect())));
+        out.push((DTy::Seq(Box::new(DTy::Unit)), DVal::Seq(vec![DVal::Unit; n])));
+        out.push((DTy::Str, DVal::Str((0..n).map(|i| (b'a' + (i % 26) as u8) as char).collect())));
+        out.push((DTy::Bytes, DVal::Bytes((0..n).map(|i| (i % 256) as u8).collect())));
+        out.push((DTy::Bytes, DVal::Bytes((0..n).map(|i| 1 + (i % 255) as u8).collect())));
+        out.push((DTy::Tuple(vec![DTy::U(8); n]), DVal::Tuple((0..n).map(|i| DVal::U(8, i as u128 % 256)).collect())));
+        out.push((DTy::Struct(vec![DTy::Bool; n]), DVal::Struct((0..n).map(|i| DVal::Bool(i % 3 == 0)).collect())));
+        let mut kv = Vec::new();
+        for i in 0..n {
+            kv.push(DVal::Str(format!("k{}", i)));
+            kv.push(if i % 5 == 0 { DVal::None } else { DVal::Some(Box::new(DVal::U(8, i as u128 % 256))) });
+        }
+        out.push((DTy::Map(Box::new(DTy::Str), Box::new(DTy::Option(Box::new(DTy::U(8))))), DVal::Map(kv)));
+        // the last variant of an n-variant enum, of each variant kind
+        if n >= 1 {
+            let vt = |i: usize| match i % 4 { 0 => DTy::Unit, 1 => DTy::NStruct(Box::new(DTy::U(8))), 2 => DTy::Tuple(vec![DTy::U(8), DTy::Bool]), _ => DTy::Struct(vec![DTy::I(16)]) };
+            let t = DTy::Enum((0..n).map(vt).collect());
+            for i in [n - 1, n.saturating_sub(2), n / 2] {
+                let v = match i % 4 { 0 => DVal::UVar(i as u32), 1 => DVal::NVar(i as u32, Box::new(DVal::U(8, 9))), 2 => DVal::TVar(i as u32, vec![DVal::U(8, 1), DVal::Bool(true)]), _ => DVal::SVar(i as u32, vec![DVal::I(16, -2)]) };
+                out.push((t.clone(), v));
+            }
+        }
+        // several string / byte bodies in one value, lengths straddling the boundary
+        let a = r.range(0, 3) as usize;
+        out.push((DTy::Tuple(vec![DTy::Str, DTy::Bytes, DTy::U(8)]), DVal::Tuple(vec![DVal::Str("s".repeat(n.saturating_sub(a))), DVal::Bytes(vec![0x5A; n + a]), DVal::U(8, 7)])));
+    }
+    out
+}
+
 pub fn gen_c01(r: &mut Rng, thorough: bool, out: &mut Vec<String>) {
+    for (t, v) in scale_cases(r, thorough) {
+        emit_rt(out, &t, &v);
+    }
     // exhaustive small domains
     for b in [false, true] {
         emit_rt(out, &DTy::Bool, &DVal::Bool(b));
@@ -437,5 +535,30 @@ pub fn gen_c03(r: &mut Rng, thorough: bool, out: &mut Vec<String>) {
         let rn = r.range(0, 12) as usize;
         let rb = r.bytes(rn);
         out.push(format!("de {} {}", t, hex(&rb)));
+    }
+    // values at scale (deep nesting, long sequences, many fields / variants): the valid encoding, with
+    // trailing bytes, cut short, and damaged
+    for (i, (t, v)) in scale_cases(r, thorough).into_iter().enumerate() {
+        if has_zero_width_seq(&t) {
+            continue;
+        }
+        let bytes = match postcard::to_allocvec(&v) {
+            Ok(b) => b,
+            Err(_) => continue,
+        };
+        out.push(format!("de {} {}", t, hex(&bytes)));
+        if i % 2 == 0 || thorough {
+            let mut ext = bytes.clone();
+            ext.push(0x01);
+            out.push(format!("de {} {}", t, hex(&ext)));
+            if !bytes.is_empty() {
+                out.push(format!("de {} {}", t, hex(&bytes[..bytes.len() - 1])));
+                out.push(format!("de {} {}", t, hex(&bytes[..bytes.len() / 2])));
+                let k = r.below(bytes.len() as u64) as usize;
+                let mut c = bytes.clone();
+                c[k] ^= 1 << r.below(8);
+                out.push(format!("de {} {}", t, hex(&c)));
+            }
+        }
     }
 }
